@@ -7,7 +7,7 @@ import os
 
 import lib
 
-CODES = {1: 'result', 2: 'log', 3: 'trace', 4: 'counts', 5: 'hash'}
+CODES = {1: 'result', 2: 'log', 3: 'trace', 4: 'counts', 5: 'hash', 6: 'graph_hash'}
 
 EXPECTED_MRO = {
     # class: (compute_hash, evaluate, _compute_hash, _make_hash, _evaluate, _hash_graph) owners assumed by Model/Edges.v
@@ -43,7 +43,7 @@ def literal(case):
                      + '; xc_trace := ' + lib.clist([lib.ctev(e) for e in ob['trace']]) + '; xc_hash := ' + lib.chash(ob.get('hash')) + ' |}')
     caches = lib.clist([f'({i}, KRam ({"None" if s is None else "Some " + str(s)}))' for i, s in enumerate(case['caches'])])
     counts = lib.clist([f'({n}, {c})' for n, c in case['counts']])
-    return ('{| xg := ' + lib.cgraph(case['nodes']) + f'; xout := {case["out"]}; xcaches := {caches}; xcounts := {counts}; xcalls := '
+    return ('{| xg := ' + lib.cgraph(case['nodes']) + f'; xout := {case["out"]}; xcaches := {caches}; xcounts := {counts}; xghash := {lib.chash(case.get("graph_hash"))}; xcalls := '
             + lib.clist(calls) + ' |}')
 
 
